@@ -38,7 +38,9 @@ RESERVED = ["__init__", "__init_subclass__", "__class__", "__module__", "__weakr
 PUBLIC = ["alpha", "beta", "gamma", "delta", "eps", "Zeta", "x1", "alpha__", "x_"]
 CUSTOM_DUNDER = ["__len__", "__iter__", "__getitem__", "__contains__", "__alpha__", "__index__"]
 PRIVATE = ["_alpha", "__beta", "_", "__", "___", "_x_", "__x_", "_alpha__", "_flush__", "__gamma_", "_x__", "____", "_____"]
-REAL_RESERVED = ["__call__", "__enter__", "__exit__", "__copy__", "__format__", "__sizeof__"]   # safe to define as real logging members
+REAL_RESERVED = ["__call__", "__enter__", "__exit__", "__copy__", "__format__", "__sizeof__", "__init_subclass__", "__subclasshook__",
+                 "__getinitargs__", "__getnewargs__", "__instancecheck__", "__subclasscheck__", "__nonzero__", "__coerce__", "__cmp__",
+                 "__hasattr__", "__deepcopy__"]   # safe to define as real logging members
 KINDS = ["method", "static", "class", "prop_ro", "prop_rw", "prop_wo", "attr", "iattr", "helper"]
 
 LOG = []
@@ -618,6 +620,15 @@ def run(ctx):
         return
     st_ = ctx.shard.get("servertype", "thread")
     try:
+        if ctx.shard.get("index", 0) < 2:
+            # deterministic part: every reserved dunder name that can be defined harmlessly, as a real (logging) method of a class
+            # exposed as a whole and once more exposed on its own: requested through every kind, it must be refused
+            for name in REAL_RESERVED:
+                for own in (False, True):
+                    case = {"spec": {"base": [{"name": name, "kind": "method", "exposed": own, "oneway": False}], "sub": [],
+                                     "base_exposed": True, "sub_exposed": own},
+                            "reqs": [[k, name] for k in ("call", "batch", "oneway", "getattr", "setattr")], "ser": "serpent"}
+                    ctx.observe(case, run_case(case, st_, keep=True), True, ["reserved-name-sweep"])
         ctx.search(case_strategy(), lambda c: run_case(c, st_, keep=True), ctx.n(150, 1500), nontrivial=_nontrivial, labels=_labels,
                    name="exposure" + st_, max_rounds=8)
     finally:
